@@ -7,7 +7,7 @@ import math
 from hypothesis import strategies as st
 
 from vlib import gen, models
-from vlib.pio import P, mk_tier, snap_tier, quiet
+from vlib.pio import P, mk_tier, snap_tier, quiet, fresh
 from vlib.run import Check, Violation, note_accept
 
 PROPERTY = "C11"
@@ -158,7 +158,7 @@ def run_history(case):
                     classes.add("insert_before_span_of_empty_tier")
             try:
                 with quiet() as out:
-                    tier.insertEntry(arg, op["mode"], op["report"])
+                    tier.insertEntry(arg, fresh(op["mode"]), fresh(op["report"]))
             except p.errors.CollisionError:
                 if m and op["mode"] == "error":
                     note_accept("CollisionError(error mode)")
